@@ -352,6 +352,7 @@ func checkC08(p *Prog, r *Report) {
 	ruleFreshCounters(p, r, "R08.f", map[string]bool{"cisco": true, "panos": true, "nsx": true, "linux": true}, 1)
 	ruleMustCalls(p, r, "R-PH", "C08")
 	ruleBufferReuse(p, r, "R-REUSE", map[string]bool{"cisco": true, "asa": true, "ios": true, "nxos": true})
+	ruleLookupsAudited(p, r, "R-LK", "C08", 5)
 	ruleExitsAudited(p, r, "R-X", "C08", map[string]bool{"cisco": true, "asa": true, "ios": true}, 17)
 	ruleMemo(p, r, "R-MEMO", "C08", map[string]bool{"cisco": true, "asa": true, "ios": true, "nxos": true}, 7)
 	ruleRewriteDiscipline(p, r, "R-FLAG", "C08", map[string]bool{"cisco": true}, 20)
